@@ -340,6 +340,28 @@ func FrontEnd(h http.Handler, mode string) http.Handler {
 			r2.URL.RawPath = ""
 			h.ServeHTTP(rw, r2)
 		})
+	case "flaky":
+		// transient trouble in front of the log (a CDN edge that does not have the object yet, a gateway restarting): the FIRST request for every
+		// data URL (tiles, proofs - anything but the checkpoint itself) is answered with a 503 that carries a body, as such error pages do;
+		// every later request for it is answered normally
+		var mu sync.Mutex
+		seen := map[string]bool{}
+		return http.HandlerFunc(func(rw http.ResponseWriter, r *http.Request) {
+			u := r.URL.Path + "?" + r.URL.RawQuery
+			p := strings.TrimRight(r.URL.Path, "/")
+			isCP := strings.HasSuffix(p, "/checkpoint") || strings.HasSuffix(p, "/latest") || strings.HasSuffix(p, "/checkpoint.txt") || strings.HasSuffix(p, "/api/v1/log")
+			mu.Lock()
+			first := !seen[u]
+			seen[u] = true
+			mu.Unlock()
+			if first && !isCP {
+				rw.Header().Set("Content-Type", "text/html")
+				rw.WriteHeader(http.StatusServiceUnavailable)
+				rw.Write([]byte("<html><body><h1>503 Service Temporarily Unavailable</h1></body></html>\n"))
+				return
+			}
+			h.ServeHTTP(rw, r)
+		})
 	case "redirect":
 		return http.HandlerFunc(func(rw http.ResponseWriter, r *http.Request) {
 			if !strings.HasPrefix(r.URL.Path, "/canonical/") {
